@@ -444,18 +444,18 @@ func genAPI(o *vcoq.Out, r *vcoq.Rand, thorough bool) error {
 	// runs are independent; execute them concurrently (they mostly wait), generate inputs serially
 	type job struct {
 		kind string
-		r    *vcoq.Rand
+		seed uint64
 		a, b int
 		ids  int64
 	}
 	var jobs []job
 	for i := 0; i < nl; i++ {
-		jobs = append(jobs, job{"coll-lossy", vcoq.NewRand(r.U64()), r.Range(1, 6), []int{3, 8, 30}[r.Intn(3)], int64(r.Range(1, 4))})
-		jobs = append(jobs, job{"value-lossy", vcoq.NewRand(r.U64()), r.Range(1, 6), []int{3, 8, 30}[r.Intn(3)], 0})
+		jobs = append(jobs, job{"coll-lossy", r.U64(), r.Range(1, 6), []int{3, 8, 30}[r.Intn(3)], int64(r.Range(1, 4))})
+		jobs = append(jobs, job{"value-lossy", r.U64(), r.Range(1, 6), []int{3, 8, 30}[r.Intn(3)], 0})
 	}
 	for i := 0; i < nb; i++ {
-		jobs = append(jobs, job{"coll-bp", vcoq.NewRand(r.U64()), r.Range(1, 60), 0, int64(r.Range(1, 4))})
-		jobs = append(jobs, job{"value-bp", vcoq.NewRand(r.U64()), r.Range(1, 60), 0, 0})
+		jobs = append(jobs, job{"coll-bp", r.U64(), r.Range(1, 60), 0, int64(r.Range(1, 4))})
+		jobs = append(jobs, job{"value-bp", r.U64(), r.Range(1, 60), 0, 0})
 	}
 	cases := make([]*vcoq.Case, len(jobs))
 	errs := make([]error, len(jobs))
@@ -469,10 +469,17 @@ func genAPI(o *vcoq.Out, r *vcoq.Rand, thorough bool) error {
 		case "coll-lossy", "coll-bp":
 			var run collRun
 			var err error
-			if j.kind == "coll-lossy" {
-				run, err = runCollLossy(j.r, j.a, j.b, j.ids)
-			} else {
-				run, err = runCollBackpressure(j.r, j.a, j.ids)
+			// a wall-clock observation that fails is measured a second time before it is
+			// reported: a blocked writer repeats, a scheduling hiccup of the host does not
+			for attempt := 0; attempt < 2; attempt++ {
+				if j.kind == "coll-lossy" {
+					run, err = runCollLossy(vcoq.NewRand(j.seed), j.a, j.b, j.ids)
+				} else {
+					run, err = runCollBackpressure(vcoq.NewRand(j.seed), j.a, j.ids)
+				}
+				if err != nil || (run.converged && !run.slow) {
+					break
+				}
 			}
 			if err != nil {
 				errs[i] = err
@@ -496,10 +503,15 @@ func genAPI(o *vcoq.Out, r *vcoq.Rand, thorough bool) error {
 		default:
 			var run valRun
 			var err error
-			if j.kind == "value-lossy" {
-				run, err = runValueLossy(j.r, j.a, j.b)
-			} else {
-				run, err = runValueBackpressure(j.a)
+			for attempt := 0; attempt < 2; attempt++ {
+				if j.kind == "value-lossy" {
+					run, err = runValueLossy(vcoq.NewRand(j.seed), j.a, j.b)
+				} else {
+					run, err = runValueBackpressure(j.a)
+				}
+				if err != nil || (run.converged && !run.slow) {
+					break
+				}
 			}
 			if err != nil {
 				errs[i] = err
@@ -532,6 +544,9 @@ func genAPI(o *vcoq.Out, r *vcoq.Rand, thorough bool) error {
 	}
 	for _, useValue := range []bool{false, true} {
 		first, early, after := runWaits(useValue)
+		if !(first && !early && after) {
+			first, early, after = runWaits(useValue) // measured twice before it is reported
+		}
 		name := "Collection"
 		if useValue {
 			name = "Value"
